@@ -83,6 +83,8 @@ func debugCmd(mode string, args []string) {
 	opt := govc.Options{Property: "DBG", Canary: true}
 	if mode == "sweep" {
 		opt.Sweep, opt.NoPanic, opt.Variants = true, true, true
+	} else {
+		opt.AutoInv = true
 	}
 	for _, k := range keys {
 		fo := runner.VerifyFunction(prog, prog.Funcs[k], opt)
@@ -114,6 +116,9 @@ func debugCmd(mode string, args []string) {
 			}
 			for _, d := range fo.Kept {
 				fmt.Println("    kept:", d)
+			}
+			for _, d := range fo.Dropped {
+				fmt.Println("    dropped:", d)
 			}
 		}
 	}
